@@ -325,6 +325,7 @@ func runCheck(o *Options) int {
 		}(j)
 	}
 	jw.Wait()
+	jobs = append(jobs, cr.wireObligations()...)
 	cr.results = jobs
 	return cr.report(start, loadS, reports, execOf, cs)
 }
@@ -780,6 +781,13 @@ func (cr *checkRun) report(start time.Time, loadS float64, reports []*FuncReport
 	var fnames []string
 	for _, fr := range reports {
 		fnames = append(fnames, shortName(fr.Pkg)+"."+fr.Name)
+	}
+	seenWire := map[string]bool{}
+	for _, j := range cr.results {
+		if j.Kind == "wire" && !seenWire[j.Fn] {
+			seenWire[j.Fn] = true
+			fnames = append(fnames, strings.SplitN(j.Name, "/", 2)[0]+" (wire layout of the struct tags, decided by evaluation)")
+		}
 	}
 	samples := []interface{}{}
 	for i, j := range cr.results {
